@@ -7,7 +7,8 @@ import time
 from . import sut, wire
 
 BEHAVIOURS = ["always", "never", "stop2", "late-within", "late-beyond", "wrong-token", "unsolicited",
-              "chatty-silent", "late-long", "never", "always", "slow-register", "slow-register-silent", "cap-renegotiate", "late-once-silent", "cap-open-silent", "cap-open-answering"]
+              "chatty-silent", "late-long", "never", "always", "slow-register", "slow-register-silent", "cap-renegotiate", "late-once-silent", "cap-open-silent", "cap-open-answering",
+              "fragment-silent", "split-answers", "fragment-silent"]
 
 
 class Lag(threading.Thread):
@@ -60,6 +61,8 @@ class Peer:
         self.next_own_ping = self.t_reg + 0.7
         self.next_chat = self.t_reg + 0.5
         self.n = 0
+        self.fragment_at = self.t_reg + 0.3
+        self.pending_tails = []
 
     def r_capline(self):
         return ["CAP LS 302", "CAP REQ :multi-prefix", "CAP REQ :bogus"][self.idx % 3]
@@ -81,7 +84,7 @@ class Peer:
             tok = m.params[-1] if m.params else ""
             b = self.b
             answer = None
-            if b in ("always", "unsolicited", "slow-register", "cap-renegotiate", "cap-open-answering"):
+            if b in ("always", "unsolicited", "slow-register", "cap-renegotiate", "cap-open-answering", "split-answers"):
                 answer = (now, tok)
             elif b == "wrong-token":
                 answer = (now, "not-the-token")
@@ -140,12 +143,27 @@ class Peer:
             self.c.send("CAP LS 302")
             self.c.send("CAP REQ :multi-prefix")
             self.c.send("CAP END")
+        if self.b == "fragment-silent" and self.fragment_at is not None and now >= self.fragment_at:
+            # the last thing this peer ever sends is the beginning of a line: not an answer to anything
+            self.fragment_at = None
+            self.c.send_raw([b"PON", b"PRIVMSG " + self.nick.encode() + b" :hel", b"PONG :", b"P", b"\r"][self.idx % 5])
+        for t in [t for t in self.pending_tails if t[0] <= now]:
+            self.pending_tails.remove(t)
+            self.c.send_raw(t[1])
+            self.answered += 1
         due = [a for a in self.pending_answers if a[0] <= now]
         for a in due:
             self.pending_answers.remove(a)
+            if self.b == "split-answers":
+                # the answer arrives in two pieces a moment apart: still one PONG, in time
+                line = ("PONG :%s\r\n" % a[1]).encode()
+                cut = 1 + (self.answered + self.idx) % (len(line) - 2)
+                self.c.send_raw(line[:cut])
+                self.pending_tails.append((now + min(0.25, self.Q * 0.3), line[cut:]))
+                continue
             self.c.send("PONG :" + a[1])
             self.answered += 1
-        if now >= self.next_own_ping and self.b != "never":
+        if now >= self.next_own_ping and self.b not in ("never", "fragment-silent", "split-answers"):
             self.n += 1
             # "a PONG carrying the same token": ordinary and odd tokens (empty, leading colon, blanks, multi-byte)
             odd = ["", ":", ":-) %d", "a:b%d", "two words %d", "é%d", "::%d", " lead%d", "#%d", "%d:", "trail%d ",
@@ -202,7 +220,7 @@ def run_config(args):
                 out["peers"].append(rec)
                 tag = "P%d-Q%d" % (P, Q)
                 responsive = p.b in ("always", "late-within", "late-long", "wrong-token", "unsolicited", "slow-register",
-                                     "cap-renegotiate", "cap-open-answering")
+                                     "cap-renegotiate", "cap-open-answering", "split-answers")
                 if not p.registered:
                     # the statement is about registered clients only: nothing to judge
                     out["inconclusive"] = "slow registrant %s never got its welcome (closed: %s, %s)" % (
